@@ -465,16 +465,16 @@ def spec_matches(c, spec):
 
 # Cross-cutting perturbations of the harness environment.  None of them is visible to a correct library: extra bytes
 # behind the input, other pre-fill of output objects and heap blocks, an unrelated library call in front of every
-# operation, the input block off its natural alignment.  Every suite of every check is re-run in part under one of
+# operation, the input block off its natural alignment, a non-zero errno left by an earlier unrelated failure.  Every suite of every check is re-run in part under one of
 # them (chosen by the suite's name), against the same model output.
 PERTURBED = [
-    {"LWV_TRAIL": "16", "LWV_PREFILL": "0", "LWV_FILL": "205", "LWV_PRECALL": "1", "LWV_MISALIGN": "3"},
-    {"LWV_TRAIL": "3", "LWV_PREFILL": "255", "LWV_FILL": "0", "LWV_MISALIGN": "1"},
-    {"LWV_PREFILL": "90", "LWV_MISALIGN": "4", "LWV_PRECALL": "1"},
+    {"LWV_TRAIL": "16", "LWV_PREFILL": "0", "LWV_FILL": "205", "LWV_PRECALL": "1", "LWV_MISALIGN": "3", "LWV_ERRNO": "2"},
+    {"LWV_TRAIL": "3", "LWV_PREFILL": "255", "LWV_FILL": "0", "LWV_MISALIGN": "1", "LWV_ERRNO": "12"},
+    {"LWV_PREFILL": "90", "LWV_MISALIGN": "4", "LWV_PRECALL": "1", "LWV_ERRNO": "22"},
 ]
 # operations whose harness output is defined independently of these knobs ("alloc" arms the allocation ledger itself and
 # "threads" / digests ("sweep3", "rtgrange", "descrange") are aggregate runs)
-PERTURB_OPS = {"cls", "mp", "eap", "rtp", "it", "crc", "rssi", "ie", "gen", "tg", "tgl", "rtg", "desc", "tagdump", "rmac", "tagname", "epoch"}
+PERTURB_OPS = {"cls", "mp", "eap", "rtp", "it", "crc", "rssi", "ie", "gen", "tg", "tgl", "tgd", "rtg", "desc", "tagdump", "rmac", "tagname", "epoch"}
 
 
 def perturbed_rerun(ctx, exe, suite, lines, c_outs, m_outs, what, canon_c):
